@@ -7,7 +7,7 @@ definitions the driver runs against the Go code), for EVERY parameter pair with
 `16 KiB ≤ maxEntry ≤ bufSize` (the Go constants 16 KiB / 1.6 MB are one
 instance, `C20_goParams_ok`), every line file, every reader state.
 -/
-import AGH.Lemmas.QLogSim
+import AGH.Lemmas.QLogCompose
 namespace AGH.C20
 open AGH
 
@@ -79,18 +79,33 @@ theorem C20_seek_absent_then_read (P : Params) (hP1 : entryLimit ≤ P.maxEntry)
   obtain ⟨q', rs, h1, h2, _⟩ := fReadMany_filePos P lines hP1 hP2 ctx.ok n c _ [] hq'
   exact ⟨q', rs, by simpa using h1, h2⟩
 
-/-- **The model meets the spec, for every operation history.**  For one or more
-files (rotated … current), each below 2⁶³ bytes, WHATEVER their content
-(files outside the property's domain carry no promise), and every finite
-history of `SeekStart` / `n × ReadNext` / `seekTS` at reader level and at file
-level in any interleaving: the monitor that the driver runs on the
+/-- **The model meets the spec, for every operation history.**  For any number of
+files (none, rotated, current, …), each below 2⁶³ bytes, WHATEVER their
+content (files outside the property's domain carry no promise), and every
+finite history of `SeekStart` / `n × ReadNext` / `seekTS` at reader level and
+at file level in any interleaving: the monitor that the driver runs on the
 implementation's observations accepts every step of the model.  Proved by a
 simulation (`Sim`) between the monitor's promise — the exact sequence of
-lines still to be returned — and the reader's byte position and buffer. -/
+lines still to be returned — and the reader's byte position and buffer.
+(No file at all: `SeekStart`/`seekTS` succeed, every read is `io.EOF`.) -/
 theorem C20_model_meets_spec (P : Params) (hP1 : entryLimit ≤ P.maxEntry) (hP2 : P.maxEntry ≤ P.bufSize)
-    (tsOf : Bytes → Int) (ds : List FileDesc) (hne : ds ≠ [])
+    (tsOf : Bytes → Int) (ds : List FileDesc)
     (hsmall : ∀ d ∈ ds, (render d.lines).length < 2 ^ 63) (ops : List Op) :
     monitorRun P (ds.map fileOfDesc) tsOf (mkCtx tsOf ds) (rInit ds.length) (specInit ds.length) ops = true := by
+  by_cases hne : ds = []
+  · subst hne
+    suffices h : ∀ (ops : List Op) (sp : SpecState), sp.fcur = [] ∧ (sp.rcur = none ∨ sp.rcur = some []) →
+        monitorRun P [] tsOf (mkCtx tsOf []) ⟨[], 0⟩ sp ops = true from
+      h ops _ ⟨rfl, Or.inl rfl⟩
+    intro ops
+    induction ops with
+    | nil => intro sp _; rfl
+    | cons op ops ih =>
+      intro sp hsp
+      obtain ⟨h1, h2, h3, h4⟩ := step_nofiles P tsOf sp hsp op
+      simp only [monitorRun]
+      rw [h1, h2, ih _ ⟨h3, h4⟩]
+      rfl
   suffices h : ∀ (ops : List Op) (r : RState) (sp : SpecState), Sim P ds sp r →
       monitorRun P (ds.map fileOfDesc) tsOf (mkCtx tsOf ds) r sp ops = true from
     h ops _ _ (sim_init P ds)
@@ -162,6 +177,153 @@ theorem C20_two_files_absent (P : Params) (hP1 : entryLimit ≤ P.maxEntry)
   · exact Or.inl ⟨r', h1, h2⟩
   · exact Or.inr ⟨r', h1, h2, h4⟩
 
+
+/-! ### C20 implements the abstract reader the C07 model assumes -/
+
+/-- **Refinement, reading (`older_than` absent).**  For every pair of files whose
+entries `e` are stored as lines `enc e` of the property's kind, C07's
+`seekRecord … none` (= `filesRev rot cur`, i.e. `rot ++ cur` reversed) is
+exactly what `SeekStart` followed by `ReadNext`s of the byte-level reader
+returns: `n` reads give the first `n` of those lines, `io.EOF` exactly after
+the last.  An empty file may or may not exist (`exR`, `exC`). -/
+theorem C20_refines_line_reader_readall (P : Params) (hP1 : entryLimit ≤ P.maxEntry)
+    (hP2 : P.maxEntry ≤ P.bufSize) (enc : C07.Entry → Bytes) (tsOf : Bytes → Int)
+    (exR exC : Bool) (rot cur : List C07.Entry)
+    (hR : rot ≠ [] → exR = true) (hC : cur ≠ [] → exC = true)
+    (eR : Enc enc tsOf rot) (eC : Enc enc tsOf cur) (r : RState)
+    (hlen : r.files.length = (descsOf enc exR exC rot cur).length)
+    (h0 : descsOf enc exR exC rot cur = [] → r.curN = 0) (n : Nat) :
+    ∃ r' xs, rReadMany P ((descsOf enc exR exC rot cur).map fileOfDesc) n
+        (rSeekStart ((descsOf enc exR exC rot cur).map fileOfDesc) r) [] =
+        (r', xs, if n > (rot ++ cur).length then some Err.eof else none) ∧
+      xs.map (fun x => (((descsOf enc exR exC rot cur).map fileOfDesc).getD x.1 noFile).slice x.2.1 x.2.2) =
+        (((rot ++ cur).reverse).map enc).take n := by
+  have g := filesCtx_descsOf enc tsOf exR exC rot cur eR eC
+  obtain ⟨hp, hl⟩ := rSeekStart_rpos' P _ r hlen g.rd h0
+  rw [allRev_descsOf enc exR exC rot cur hR hC] at hp
+  obtain ⟨r', xs, h1, h2, _, _⟩ := rReadMany_spec P _ hP1 hP2 g.rd n _ _ [] hl hp
+  refine ⟨r', xs, ?_, ?_⟩
+  · simpa [C07.filesRev, Nat.add_comm] using h1
+  · simpa [C07.filesRev] using h2
+
+/-- **Refinement, seeking (`older_than = t`).**  Whenever C07's `seekRecord` says the
+following reads return `rem` (found: that entry and everything older, across
+the file boundary; too late for a file: everything from the newest entry —
+the F12-repaired `seekRecord` skips nothing), the byte-level `seekTS` succeeds
+and `n` reads return exactly the first `n` lines of `rem`, `io.EOF` after the
+last; whenever C07 says "error", the byte-level reader reports `not found` and
+no position has moved.  Excluded: both files empty while an empty file exists
+(`C20_refines_line_reader_mismatch_empty`). -/
+theorem C20_refines_line_reader_seek (P : Params) (hP1 : entryLimit ≤ P.maxEntry)
+    (hP2 : P.maxEntry ≤ P.bufSize) (enc : C07.Entry → Bytes) (tsOf : Bytes → Int)
+    (exR exC : Bool) (rot cur : List C07.Entry)
+    (hR : rot ≠ [] → exR = true) (hC : cur ≠ [] → exC = true)
+    (eR : Enc enc tsOf rot) (eC : Enc enc tsOf cur)
+    (hex : ¬ (rot = [] ∧ cur = [] ∧ (exR || exC) = true))
+    (o : Option Int) (r : RState)
+    (hlen : r.files.length = (descsOf enc exR exC rot cur).length)
+    (h0 : descsOf enc exR exC rot cur = [] → r.curN = 0) :
+    (∀ rem, C07.seekRecord rot cur o = some rem →
+      ∃ r1, rSeekRecord P ((descsOf enc exR exC rot cur).map fileOfDesc) tsOf r o = (r1, .ok ()) ∧
+        ∀ n, ∃ r' xs, rReadMany P ((descsOf enc exR exC rot cur).map fileOfDesc) n r1 [] =
+            (r', xs, if n > rem.length then some Err.eof else none) ∧
+          xs.map (fun x => (((descsOf enc exR exC rot cur).map fileOfDesc).getD x.1 noFile).slice
+            x.2.1 x.2.2) = (rem.map enc).take n) ∧
+    (C07.seekRecord rot cur o = none →
+      ∃ r', rSeekRecord P ((descsOf enc exR exC rot cur).map fileOfDesc) tsOf r o =
+          (r', .error .notFound) ∧ SameUpToBuf r r') := by
+  have g := filesCtx_descsOf enc tsOf exR exC rot cur eR eC
+  obtain ⟨h1, h2⟩ := rSeekRecord_refines enc tsOf P hP1 exR exC rot cur hR hC eR eC hex o r hlen h0
+  refine ⟨?_, h2⟩
+  intro rem hrem
+  obtain ⟨r1, h3, h4, h5⟩ := h1 rem hrem
+  refine ⟨r1, h3, fun n => ?_⟩
+  obtain ⟨r', xs, h6, h7, _, _⟩ := rReadMany_spec P _ hP1 hP2 g.rd n r1 _ [] h5 h4
+  exact ⟨r', xs, by simpa using h6, h7⟩
+
+/-- **Refinement, `searchFiles`.**  C07's `searchFiles` (its list-level `seekRecord` +
+`readEntries`) is `readEntries` run over the decoded lines that the byte-level
+reader returns when read until `io.EOF` after the byte-level `seekRecord` —
+and `([], none)` when the byte-level `seekRecord` fails.  `dec` is a left
+inverse of `enc` (`decodeLogEntry` after `json.Encode`). -/
+theorem C20_refines_line_reader_search (P : Params) (hP1 : entryLimit ≤ P.maxEntry)
+    (hP2 : P.maxEntry ≤ P.bufSize) (enc : C07.Entry → Bytes) (dec : Bytes → C07.Entry)
+    (tsOf : Bytes → Int) (exR exC : Bool) (s : C07.State) (p : C07.Params)
+    (hR : s.rot ≠ [] → exR = true) (hC : s.cur ≠ [] → exC = true)
+    (eR : Enc enc tsOf s.rot) (eC : Enc enc tsOf s.cur)
+    (hdec : ∀ e, dec (enc e) = e)
+    (hex : ¬ (s.rot = [] ∧ s.cur = [] ∧ (exR || exC) = true)) (r : RState)
+    (hlen : r.files.length = (descsOf enc exR exC s.rot s.cur).length)
+    (h0 : descsOf enc exR exC s.rot s.cur = [] → r.curN = 0) :
+    match rSeekRecord P ((descsOf enc exR exC s.rot s.cur).map fileOfDesc) tsOf r p.olderThan with
+    | (_, .error _) => C07.searchFiles s p = ([], none)
+    | (r1, .ok _) =>
+      ∀ n r' xs, rReadMany P ((descsOf enc exR exC s.rot s.cur).map fileOfDesc) n r1 [] =
+          (r', xs, some Err.eof) →
+        C07.searchFiles s p =
+          C07.readEntries (C07.keepE s.conf p) p.scan (C07.wrap64 (p.offset + p.limit))
+            (xs.map (fun x => dec ((((descsOf enc exR exC s.rot s.cur).map fileOfDesc).getD x.1
+              noFile).slice x.2.1 x.2.2))) [] 0 none := by
+  obtain ⟨h1, h2⟩ := C20_refines_line_reader_seek P hP1 hP2 enc tsOf exR exC s.rot s.cur hR hC eR eC hex
+    p.olderThan r hlen h0
+  cases hs : C07.seekRecord s.rot s.cur p.olderThan with
+  | none =>
+    obtain ⟨r', h3, _⟩ := h2 hs
+    rw [h3]
+    simp [C07.searchFiles, hs]
+  | some rem =>
+    obtain ⟨r1, h3, h4⟩ := h1 rem hs
+    rw [h3]
+    intro n r' xs hread
+    obtain ⟨r'', xs', h5, h6⟩ := h4 n
+    rw [h5] at hread
+    simp only [Prod.mk.injEq] at hread
+    obtain ⟨_, hxs, hflag⟩ := hread
+    subst hxs
+    have hn : n > rem.length := by
+      by_cases h : n > rem.length
+      · exact h
+      · rw [if_neg h] at hflag; cases hflag
+    have hall : (rem.map enc).take n = rem.map enc := List.take_of_length_le (by simp; omega)
+    rw [hall] at h6
+    have hdecl : xs'.map (fun x => dec ((((descsOf enc exR exC s.rot s.cur).map fileOfDesc).getD x.1
+        noFile).slice x.2.1 x.2.2)) = rem := by
+      have := congrArg (List.map dec) h6
+      rw [List.map_map, List.map_map] at this
+      rw [show (fun x : Nat × Nat × Nat => dec ((((descsOf enc exR exC s.rot s.cur).map fileOfDesc).getD x.1
+        noFile).slice x.2.1 x.2.2)) = dec ∘ (fun x => (((descsOf enc exR exC s.rot s.cur).map
+        fileOfDesc).getD x.1 noFile).slice x.2.1 x.2.2) from rfl, this]
+      conv => rhs; rw [← List.map_id rem]
+      apply List.map_congr_left
+      intro e _; exact hdec e
+    rw [hdecl]
+    simp [C07.searchFiles, hs]
+
+/-- **The one mismatch between the two abstractions.**  Both files hold no entry, yet
+an (empty) file exists — C07's model has no such state ("a file exists iff it
+is non-empty").  C07: `seekFiles [] [] t = some []` (positioned, nothing to
+read).  Byte level: every file reports too-early, the reader reports
+`not found`.  `searchFiles` returns no file entries either way. -/
+theorem C20_refines_line_reader_mismatch_empty (P : Params) (enc : C07.Entry → Bytes)
+    (tsOf : Bytes → Int) (exR exC : Bool) (hex : (exR || exC) = true) (t : Int) (r : RState) :
+    C07.seekFiles [] [] t = some [] ∧
+    (rSeekTS P ((descsOf enc exR exC [] []).map fileOfDesc) tsOf r t).2 = .error .notFound :=
+  rSeekTS_empty_existing enc tsOf P exR exC hex t r
+
+/-- **A stored timestamp of exactly 0 ns.**  The code cannot tell it from a missing
+timestamp: when the first probe (the middle of the file) falls into such a
+record, `seekTS` fails with "record … has empty timestamp" for every target
+(the target 0 included) and leaves the position untouched; reverse reading
+(`C20_readall`) is unaffected.  The spec therefore promises nothing about seeks
+in such a file. -/
+theorem C20_zero_stamp_seek_fails (P : Params) (hP1 : entryLimit ≤ P.maxEntry)
+    (tsOf : Bytes → Int) (target : Int) (A B : List Bytes) (x : Bytes)
+    (hx : lineOK x = true) (hz : tsOf x = 0)
+    (h1 : (render A).length ≤ (render (A ++ x :: B)).length / 2)
+    (h2 : (render (A ++ x :: B)).length / 2 ≤ (render A).length + x.length) (q : QState) :
+    seekTS P (fileOfLines (A ++ x :: B)) tsOf q target = ({ q with hasBuf := false }, .error .emptyTS) :=
+  seekTS_zero_stamp P tsOf target (A ++ x :: B) hP1 A B x rfl hx hz h1 h2 q
+
 /-! ### Non-vacuity: the hypotheses are satisfiable and the conclusions say something -/
 
 /-- Three entries with timestamps 1 < 2 < 3 (`tsOf` = length). -/
@@ -182,5 +344,20 @@ example : (specStep (mkCtx (fun l => (l.length : Int)) [{ lines := [[65], [66, 6
 
 /-- …and rejects a reader that skips a line. -/
 example : (checkNext [[66, 67], [65]] 1 1 none (hashLines [[65]])).isSome = true := by decide
+
+/-- The encoding hypothesis is satisfiable (entries told apart by their timestamp). -/
+example : Enc (fun e => List.replicate e.ts.toNat 65) (fun l => (l.length : Int))
+    [{ (default : C07.Entry) with ts := 1 }, { (default : C07.Entry) with ts := 3 }] :=
+  ⟨by decide, by decide, by decide, by decide, by decide⟩
+
+/-- …and C07's abstraction is not trivial on it: the timestamp 3 is found at line 1. -/
+example : C07.seekFiles [] [{ (default : C07.Entry) with ts := 1 }, { (default : C07.Entry) with ts := 3 }] 3 =
+    some [{ (default : C07.Entry) with ts := 3 }, { (default : C07.Entry) with ts := 1 }] := by decide
+
+/-- A one-record file whose record has timestamp 0 satisfies the hypotheses of
+`C20_zero_stamp_seek_fails`. -/
+example : seekTS goParams (fileOfLines ([] ++ [65] :: [])) (fun _ => 0) {} 0 =
+    ({ hasBuf := false }, .error .emptyTS) :=
+  C20_zero_stamp_seek_fails goParams (by decide) _ 0 [] [] [65] (by decide) rfl (by decide) (by decide) {}
 
 end AGH.C20
